@@ -152,6 +152,24 @@ def slice_roles(repo: Repo) -> RuleRun:
             want = sorted(f"op[{k}][{j}][{i}]" for k in range(nk) for j in range(nj) for i in range(ni) if (i, j, k)[axis] == idx)
             got = sorted(repr(o) for o in res) if isinstance(res, list) else res
             r.check(got == want, fn, f"get_slice({axis},{idx}): {len(want)} operations", f"get_slice(axis={axis}, index={idx}) on a {ni}x{nj}x{nk} stack returns {got}; expected the operations with {'column' if axis == 0 else 'row' if axis == 1 else 'tier'} index {idx}, each once: {want}", fn.node, key=f"slice:{axis}:{idx}")
+    # a query: asking for a slice leaves the stack's grids as they were, and asking again gives the same answer
+    snapshot = [[list(row) for row in sh.get("grid")] for sh in shapes]
+    for axis, n in ((0, ni), (1, nj), (2, nk)):
+        first = _run(Evaluator(repo=repo, module=fn.module), fn, [st, axis, 0])
+        second = _run(Evaluator(repo=repo, module=fn.module), fn, [st, axis, 0])
+        now = [[list(row) for row in sh.get("grid")] for sh in shapes]
+        same = now == snapshot and isinstance(first, list) and isinstance(second, list) and [repr(o) for o in first] == [repr(o) for o in second]
+        r.check(
+            same,
+            fn,
+            f"get_slice({axis}, 0) is a pure query",
+            f"get_slice(axis={axis}, index=0) changes the stack it is asked about: grids before {snapshot} / after {now}; a second call returns {len(second) if isinstance(second, list) else second} "
+            f"operations instead of {len(first) if isinstance(first, list) else first} (the returned list is one of the grid's own rows, extended in place?)",
+            fn.node,
+            key=f"slice-pure:{axis}",
+        )
+        for sh, snap in zip(shapes, snapshot):
+            sh.set("grid", [list(row) for row in snap])
     return r
 
 
@@ -181,6 +199,31 @@ def partition(repo: Repo) -> RuleRun:
     this.set("lofts", [ops])
     res = _run(Evaluator(repo=repo, module=sh.module), sh, [this])
     r.check(res == ops, hollow, "hollow shape: shell = all operations", f"RoundHollowShape.shell = {res}", sh.node, key="hollow")
+    # ... and its (inherited) core is empty: a ring has one tier only and a sketch without core faces, so nothing is 'inner'
+    for hcls in [hollow, *repo.subclasses(hollow)]:
+        corem = repo.find_method(hcls, "core")
+        shellm = repo.find_method(hcls, "shell")
+        if corem is None or shellm is None:
+            continue
+        this = Obj("ring", cls=hcls)
+        ops = [Sym(f"op{i}") for i in range(8)]
+        this.set("lofts", [ops])
+        this.set("revolves", ops)  # RevolvedRing keeps its operations there
+        sk = Obj("annulus")
+        sk.set("core", [])
+        this.set("sketch_1", sk)
+        c = _run(Evaluator(repo=repo, module=corem.module), corem, [this])
+        s_ = _run(Evaluator(repo=repo, module=shellm.module), shellm, [this])
+        disjoint = isinstance(c, list) and isinstance(s_, list) and not (set(map(repr, c)) & set(map(repr, s_))) and sorted(map(repr, c + s_)) == sorted(map(repr, ops))
+        r.check(
+            disjoint and c == [],
+            hcls,
+            f"{hcls.name}: core = [] and shell = all {len(ops)} operations",
+            f"{hcls.name} (one tier, sketch without core faces): core = {c}, shell = {s_}; core and shell must partition the operations - every operation of a ring touches the "
+            "outer surface, none is 'core'",
+            corem.node,
+            key=f"hollow-core:{hcls.name}",
+        )
     # spheres
     for clsname in ("construct.shapes.sphere.EighthSphere", "construct.shapes.sphere.Hemisphere"):
         cls = repo.cls(clsname)
